@@ -263,6 +263,41 @@ pub fn check_functions(
                 format!("function at {}: listed but unreachable {extra:?}, reachable but unlisted {missing:?}", node_desc(cfg, &entry)),
             ));
         }
+        // the body is what the function reaches along *control-flow* edges: the edge that
+        // leads from a rewritten return to an exit is bookkeeping, no control flows along it
+        {
+            let mut real: Vec<Rc<CfgNode>> = vec![Rc::clone(&entry)];
+            let mut stack = vec![Rc::clone(&entry)];
+            while let Some(n) = stack.pop() {
+                if is_rewritten_return(&n) {
+                    continue;
+                }
+                let nexts: Vec<Rc<CfgNode>> = n.nexts().iter().cloned().collect();
+                for m in nexts {
+                    if !real.iter().any(|x| Rc::ptr_eq(x, &m)) {
+                        real.push(Rc::clone(&m));
+                        stack.push(m);
+                    }
+                }
+            }
+            let real_set: HashSet<usize> = real.iter().map(ptr).collect();
+            let beyond: Vec<&Rc<CfgNode>> = listed.iter().filter(|n| !real_set.contains(&ptr(n))).collect();
+            if !beyond.is_empty() {
+                let own_exit = beyond.iter().all(|n| Rc::ptr_eq(n, &f.exit()));
+                let other_exit = beyond.iter().all(|n| funcs.iter().any(|g| !Rc::ptr_eq(g, f) && Rc::ptr_eq(&g.exit(), n)));
+                let cause = if own_exit {
+                    "its-own-exit-is-reached-only-through-a-merged-return"
+                } else if other_exit {
+                    "the-exit-of-another-function-behind-a-shared-merged-return"
+                } else {
+                    "other"
+                };
+                return Some((
+                    format!("body-holds-instructions-no-control-flow-reaches|{cause}"),
+                    format!("function at {}: {:?}", node_desc(cfg, &entry), beyond.iter().map(|n| node_desc(cfg, n)).collect::<Vec<_>>()),
+                ));
+            }
+        }
         // per-node owner lists are consistent with the per-function node list
         for n in nodes.iter() {
             let owns = n.functions().iter().any(|g| Rc::ptr_eq(g, f));
